@@ -351,4 +351,12 @@ def parseToks (ts : List Tok) : Option (Cst × List Tok) :=
 
 def parse (s : String) : Option (Cst × List Tok) := parseToks (lex s).toks
 
+/-- What fin-protoc accepts (`ParseAll`): no lexical error, no syntax error, and the start rule
+consumed every token. -/
+def parseFull (s : String) : Option Cst :=
+  if lexErrors s ≠ 0 then none else
+  match parseToks (lex s).toks with
+  | some (cst, []) => some cst
+  | _ => none
+
 end FinProtoc.Dsl
